@@ -599,6 +599,24 @@ def named_refs(body):
     return refs, normal
 
 
+def local_order(body):
+    """locals in first-appearance (text) order, as lean/Drx/Spec/Compile.lean Handler.locals computes them"""
+    out = []
+    def visit(t):
+        if isinstance(t, list):
+            if len(t) == 2 and t[0] == "l" and isinstance(t[1], str):
+                if t[1] not in out:
+                    out.append(t[1])
+                return
+            if t and t[0] == "put" and len(t) == 4:
+                visit(t[2]); visit(t[3]); return
+            for x in t:
+                visit(x)
+    for st in body:
+        visit(st)
+    return out
+
+
 def features(h, script_globals=()):
     """root-cause features of one handler tree (used by the narrow matchers of the open findings)"""
     f = set()
@@ -606,6 +624,16 @@ def features(h, script_globals=()):
     refs, normal = named_refs(body)
     if any(g not in script_globals and g not in normal for g in refs):
         f.add("F120")
+    locs = local_order(body)
+    for t in walk(body):
+        if len(t) >= 2 and t[0] in ("put", "del"):
+            tgt = t[3] if t[0] == "put" else t[1]
+            if isinstance(tgt, list) and tgt[0] == "ch":
+                b = tgt
+                while isinstance(b, list) and b[0] == "ch":
+                    b = b[4]
+                if isinstance(b, list) and b[0] == "l" and locs and b[1] != locs[0]:
+                    f.add("F39")
     for t in walk(body):
         if len(t) < 2 or not isinstance(t[0], str):
             continue
